@@ -89,7 +89,50 @@ def _cvc5_check(smt2, timeout_s=30):
         return f"error:{e}"
 
 
+class _ContractTimeout(BaseException):
+    pass
+
+
 def work(ident, prop, tier, tree):
+    """one contract under a wall-clock limit: an engine that does not terminate on some (changed) function body must not hang the check.
+    On expiry the contract is handed to its native stand-in like any other body the verifier cannot handle."""
+    import signal
+    limit = int(os.environ.get("VERIF_CONTRACT_LIMIT_S", "0") or 0) or (600 if tier == "quick" else 3000)
+
+    def _expired(signum, frame):
+        raise _ContractTimeout()
+    old_handler = signal.signal(signal.SIGALRM, _expired)
+    signal.alarm(limit)
+    try:
+        return _work_inner(ident, prop, tier, tree)
+    except _ContractTimeout:
+        signal.alarm(0)
+        return _after_timeout(ident, prop, tier, tree, limit)
+    finally:
+        signal.alarm(0)
+        signal.signal(signal.SIGALRM, old_handler)
+
+
+def _after_timeout(ident, prop, tier, tree, limit):
+    err = f"unsupported: the verifier did not finish this contract within {limit} s (engine non-termination or an oversized path set)"
+    out = {"ident": ident, "error": err, "bounded": None, "paths": 0, "aux_paths": 0, "infeasible": 0, "loops": {}, "seconds": float(limit),
+           "obligations": [], "functions": [], "canaries": [], "assumptions": []}
+    try:
+        reg = load_contracts()
+        k = [kk for lst in reg.values() for kk in lst if kk.ident == ident and prop in kk.props][0]
+        bd = getattr(k, "bounded_driver", None)
+        if bd:
+            rp = run_replay(bd, tree)
+            ran = rp.get("reproduced") is not None
+            out["bounded"] = {"instances": 1 if ran else 0, "undecided": 0 if ran else 1, "detail": rp.get("detail", "")[:300],
+                              "bound": f"native driver {bd['driver']} (seeded random search on the real code)",
+                              "violations": [{"kwargs": bd, "detail": rp.get("detail", "")}] if rp.get("reproduced") else []}
+    except Exception as e:      # noqa: BLE001
+        out["error"] += f" (stand-in failed: {type(e).__name__}: {e})"
+    return out
+
+
+def _work_inner(ident, prop, tier, tree):
     """verify one contract in a fresh process; returns a picklable summary"""
     os.environ["PYOMA2_TREE"] = tree
     t0 = time.time()
@@ -309,10 +352,21 @@ def main(argv=None):
         print(f"checker error: no contracts registered for {prop}")
         return 3
     results = []
-    with cf.ProcessPoolExecutor(max_workers=min(a.jobs, len(ks))) as ex:
-        futs = [ex.submit(work, k.ident, prop, tier, tree) for k in ks]
-        for f in futs:
-            results.append(f.result())
+    hard = (int(os.environ.get("VERIF_CONTRACT_LIMIT_S", "0") or 0) or (600 if tier == "quick" else 3000)) * 2 + 600
+    ex = cf.ProcessPoolExecutor(max_workers=min(a.jobs, len(ks)))
+    try:
+        futs = [(k, ex.submit(work, k.ident, prop, tier, tree)) for k in ks]
+        for k, f in futs:
+            try:
+                results.append(f.result(timeout=max(60, hard - (time.time() - t0))))
+            except Exception as e:      # noqa: BLE001   (a worker stuck in native code, or killed)
+                results.append({"ident": k.ident, "error": f"crash: worker did not return ({type(e).__name__}: {e})", "bounded": None, "paths": 0, "aux_paths": 0,
+                                "infeasible": 0, "loops": {}, "seconds": 0.0, "obligations": [], "functions": [], "canaries": [], "assumptions": []})
+    finally:
+        for pr in list(getattr(ex, "_processes", {}).values()):
+            if pr.is_alive():
+                pr.kill()
+        ex.shutdown(wait=False, cancel_futures=True)
     # ---- static (syntactic) checks of abstracted functions, e.g. frame conditions --------------------
     from pyvc.frontend import Repo as _Repo
     reg = load_contracts()
@@ -482,7 +536,8 @@ def main(argv=None):
         return 3
     if unknown:
         return 2
-    if n_total == 0:
+    if n_total == 0 and not (fell_back or term_und or any(r.get("bounded") for r in results)):
+        # nothing was generated and nothing was explored natively either: a vacuous run is an error, not a pass
         print("checker error: zero obligations")
         return 3
     return 0
